@@ -1123,8 +1123,163 @@ fn c11_e2_32_enum(tier: Tier, shard: u64, nshards: u64, f: &mut dyn FnMut(&[u64]
     }
 }
 
+/// Pop timing is the owner's business: a connection whose owner leaves parsed requests queued
+/// (for any number of reads, any number of requests) reports the same results read by read,
+/// and hands over the same requests, as one whose owner pops after every read; in particular
+/// what can be popped after a parse error is exactly what had completed before the rejected
+/// request. Long preambles of small requests put >1000 requests into the queue.
+fn c11_defer(input: &Input, obs: &mut Obs) -> Result<(), Fail> {
+    let mut s = Src::new(input.bytes());
+    let limit = pick_limit(&mut s, true);
+    let mut cfg = GenCfg::new(buf_size(), eff(limit));
+    cfg.corrupt = 0;
+    cfg.max_body = 200;
+    let mut stream = Vec::new();
+    // preamble of valid requests
+    let npre = match s.weighted(&[6, 5, 4, 3]) {
+        0 => s.below(6),
+        1 => s.range(10, 200),
+        2 => s.range(1000, 1100),
+        _ => s.range(1100, 2600),
+    };
+    let small: [&[u8]; 4] = [b"GET / HTTP/1.1\r\n\r\n", b"GET /a HTTP/1.0\r\n\r\n", b"PUT /b HTTP/1.1\r\nContent-Length: 2\r\n\r\nhi", b"PATCH / HTTP/1.1\r\nExpect: 100-continue\r\nContent-Length: 1\r\n\r\nx"];
+    let rich = s.chance(40) && npre < 300;
+    for _ in 0..npre {
+        if rich {
+            let mut notes = Notes::default();
+            gen_request(&mut s, &cfg, &mut notes, &mut stream);
+        } else {
+            stream.extend_from_slice(small[s.weighted(&[12, 3, 3, 1])]);
+        }
+    }
+    // faults and continuations, possibly several rounds
+    let rounds = s.below(3);
+    for _ in 0..rounds {
+        let faults: [&[u8]; 8] = [
+            b"BAD / HTTP/1.1\r\n",
+            b"GET / HTTP/9.9\r\n",
+            b"GET /\r\n",
+            b"GET / HTTP/1.1\r\nnocolon\r\n",
+            b"PUT / HTTP/1.1\r\nContent-Length: x\r\n",
+            b"PUT / HTTP/1.1\r\nX-A: b\r\nAccept-Encoding: identity;q=0\r\n",
+            b"PUT / HTTP/1.1\r\nContent-Length: 4294967295\r\n\r\n",
+            b"\r\n",
+        ];
+        stream.extend_from_slice(faults[s.below(faults.len())]);
+        let mut cfgb = cfg.clone();
+        cfgb.max_reqs = 2;
+        c11_continuation(&mut s, &cfgb, &mut stream, obs);
+    }
+    // one read-size plan, shared by both runs
+    let sizes = [1usize, 7, 18, 19, 100, 1023, 1024, 1024, 1024, 5000];
+    let plan: Vec<usize> = (0..48).map(|_| sizes[s.weighted(&[1, 1, 2, 1, 2, 2, 6, 6, 6, 3])]).collect();
+    // deferred run: which reads are followed by pops (of how many)
+    let pop_plan: Vec<u8> = (0..48).map(|_| s.weighted(&[30, 2, 1]) as u8).collect();
+    let run_one = |defer: bool| -> Result<(Vec<RRes>, Vec<Delivered>, Vec<usize>, Vec<u8>, usize), Fail> {
+        let mut run = ConnRun::new(stream.clone(), limit, false);
+        run.keep = true;
+        run.defer_pop = defer;
+        let mut results = Vec::new();
+        let mut popped_at_error = Vec::new();
+        let mut maxq = 0usize;
+        let mut k = 0usize;
+        let mut guard = 0usize;
+        while run.remaining() > 0 && guard < 8 * stream.len() + 64 {
+            guard += 1;
+            let want = plan[k % plan.len()];
+            let st = run.read(ReadEv::Data { want, fds: vec![] }).map_err(|m| Fail::new("C11:misuse", m))?.clone();
+            if let RRes::Panic(m) = &st.res {
+                return Err(Fail::new("C11:panic", m.clone()));
+            }
+            let is_err = matches!(st.res, RRes::Parse(..));
+            results.push(st.res);
+            if defer {
+                if is_err {
+                    // everything that can be popped now completed before the rejected request
+                    run.pop_some(usize::MAX).map_err(|m| Fail::new("C11:panic", m))?;
+                } else {
+                    match pop_plan[k % pop_plan.len()] {
+                        0 => {}
+                        1 => {
+                            run.pop_some(usize::MAX).map_err(|m| Fail::new("C11:panic", m))?;
+                        }
+                        _ => {
+                            run.pop_some(1).map_err(|m| Fail::new("C11:panic", m))?;
+                        }
+                    }
+                }
+            }
+            if is_err {
+                popped_at_error.push(run.kept.len());
+            }
+            k += 1;
+            let _ = &mut maxq;
+        }
+        if defer {
+            let before = run.kept.len();
+            run.pop_some(usize::MAX).map_err(|m| Fail::new("C11:panic", m))?;
+            maxq = run.kept.len() - before;
+        }
+        let out = run.drain_out().map_err(|m| Fail::new("C11:output", m))?;
+        let delivered: Vec<Delivered> = run.kept.iter().map(|(_, r)| delivered_of(r)).collect();
+        Ok((results, delivered, popped_at_error, out, maxq))
+    };
+    let (r_now, d_now, e_now, o_now, _) = run_one(false)?;
+    let (r_def, d_def, e_def, o_def, left) = run_one(true)?;
+    if r_now.len() != r_def.len() {
+        return Err(Fail::new("C11:pop-timing", format!("{} reads when popping at once, {} reads with requests left queued", r_now.len(), r_def.len())));
+    }
+    for (i, (a, b)) in r_now.iter().zip(r_def.iter()).enumerate() {
+        if a != b {
+            return Err(Fail::new("C11:pop-timing", format!("read #{}: {:?} when the owner pops after every read, {:?} when it leaves requests queued", i, a, b)));
+        }
+    }
+    if e_now != e_def {
+        return Err(Fail::new("C11:rejected-delivered", format!("requests available after each parse error: {:?} with requests left queued, {:?} when popping at once", e_def, e_now)));
+    }
+    if d_now.len() != d_def.len() {
+        return Err(Fail::new("C11:pop-timing", format!("{} requests delivered with requests left queued, {} when popping at once", d_def.len(), d_now.len())));
+    }
+    for (i, (a, b)) in d_now.iter().zip(d_def.iter()).enumerate() {
+        if a != b {
+            return Err(Fail::new("C11:pop-timing", format!("delivered request #{} differs between the two pop schedules: {:?} vs {:?}", i, a, b)));
+        }
+    }
+    if o_now != o_def {
+        return Err(Fail::new("C11:pop-timing", "queued output differs between the two pop schedules".into()));
+    }
+    // and the whole run agrees with the reference on what is delivered before the first error
+    let (reqs, end) = ref_parse(&stream, buf_size(), eff(limit));
+    let ncomplete = reqs.iter().filter(|r| r.complete_at != usize::MAX).count();
+    if let Some(first) = e_now.first() {
+        if !matches!(end, End::Error { .. }) || *first != ncomplete {
+            return Err(Fail::new("C11:first-error", format!("at the first parse error {} requests had been delivered; reference: {} complete requests, end {:?}", first, ncomplete, end)));
+        }
+    } else if matches!(end, End::Error { .. }) {
+        return Err(Fail::new("C11:first-error", format!("reference ends in {:?} but no parse error was reported", end)));
+    }
+    if !e_now.is_empty() {
+        obs.label("parse_error_reported");
+    }
+    if d_now.len() > 1024 {
+        obs.label("more_than_1024_requests");
+    }
+    if left > 1024 {
+        obs.label("more_than_1024_queued_at_once");
+    }
+    if left > 1 {
+        obs.label("requests_left_queued");
+    }
+    obs.nontrivial = d_now.len() >= 2 && (left > 1 || !e_now.is_empty());
+    obs.case_hash = Some(fnv64(input.bytes()));
+    if obs.want_render {
+        obs.render = format!("limit={:?} stream[{}]=\"{}\" plan={:?} pops={:?}", limit, stream.len(), esc(&stream), plan, pop_plan);
+    }
+    Ok(())
+}
+
 pub fn c11_conn_subs() -> Vec<(&'static str, SubFn)> {
-    vec![("ab", c11_ab), ("e2_32", c11_e2_32), ("raw", crate::props::raw::c11_raw)]
+    vec![("ab", c11_ab), ("e2_32", c11_e2_32), ("raw", crate::props::raw::c11_raw), ("defer", c11_defer)]
 }
 
 pub fn c11_conn_jobs(tier: Tier) -> Vec<Job> {
@@ -1132,6 +1287,8 @@ pub fn c11_conn_jobs(tier: Tier) -> Vec<Job> {
     vec![
         Job { sub: "ab", kind: JobKind::Pbt { cases: if q { 150_000 } else { 3_000_000 }, max_len: 1400 }, smallbuf: false },
         Job { sub: "ab", kind: JobKind::Pbt { cases: if q { 30_000 } else { 500_000 }, max_len: 900 }, smallbuf: true },
+        Job { sub: "defer", kind: JobKind::Pbt { cases: if q { 3_000 } else { 60_000 }, max_len: 600 }, smallbuf: false },
+        Job { sub: "defer", kind: JobKind::Pbt { cases: if q { 1_000 } else { 20_000 }, max_len: 600 }, smallbuf: true },
         Job { sub: "e2_32", kind: JobKind::Enum { f: c11_e2_32_enum, bound: "B=32: every error-ending stream of the piece family (cut at the decidable point, or whole) x 7 continuations x all cut pairs (quick: second cut inside the continuation)" }, smallbuf: true },
     ]
 }
